@@ -36,6 +36,7 @@ class World:
         self.index = {}  # id(obj) -> pool index
         self.kind = []
         self.proxies = {}  # (pool idx of instance, pool idx of inner pin) -> the one proxy OuterPin object
+        self.held = []     # caller-owned collections built by the seed and kept across the events of a history
 
     def add(self, obj):
         i = self.index.get(id(obj))
